@@ -157,7 +157,7 @@ def riscv_b(obj, rs1, rs2, imm1, imm2, imm3, imm4):
 def riscv_csr(obj, imm, rs1, rd):
     r1 = env.x[rs1]
     dst = env.x[rd]
-    csr = env.csr[imm]
+    csr = env.csr.get(imm, None)
     obj.operands = [dst, r1]
     obj.type = type_cpu_state
 
